@@ -615,6 +615,11 @@ def _own_failures(case):
     label = ctor_label(v)
     trace = []
     lc = lib_from_rcell(cell)
+    # malformed inputs first (see c16_tx): nothing may be carried over into the parse of the well-formed value
+    from harness.ref.refcell import RCell as _RC
+    for bad in (_RC(cell.bits[:len(cell.bits) // 2], cell.refs[:1]), _RC(cell.bits[:max(0, len(cell.bits) - 1)], []),
+                _RC(''.join('1' if c == '0' else '0' for c in cell.bits), cell.refs)):
+        call(lambda: _lib(name)(lib_from_rcell(bad).begin_parse()))
     s = traced(lc.begin_parse(), trace)
     ok, obj = call(_lib(name), s)
     fails = []
